@@ -157,6 +157,52 @@ def explore(chk):
                 chk.correspondence_failure(dict(case, model=out[o][:500], diff=d), "SCC reader: implementation and model differ")
 
 
+def explore_simulated(chk):
+    """reads with simulate_roll_up=True (not modelled; the property's own wording is the judge): a short roll-up passage, then a
+    pop-on caption whose row is or is not longer than 32 characters"""
+    import pycaption
+    from pycaption.exceptions import CaptionLineLengthError
+    sub = chk.sub("simulate_roll_up_reads")
+    for i in range(12 if chk.tier == "quick" else 300):
+        depth = ["RU2", "RU3", "RU4"][i % 3]
+        lines = ["Scenarist_SCC V1.0", ""]; frame = 30
+        for k in range(sub.randint(1, 3)):
+            t_ = "".join(sub.choice(sccgen.SAFE_CHARS[:52]) for _ in range(sub.randint(2, 6)))
+            words = ([sccgen.CMD[depth]] if k == 0 or sub.random() < 0.5 else []) + [sccgen.CMD["CR"], sccgen.pac(15)] + sccgen.chars_to_words(t_)
+            lines += [sccgen.timecode(frame, False) + "\t" + " ".join(words), ""]; frame += len(words) + 40
+        n = sub.choice([10, 32, 33, 36, 40]) if i % 2 else sub.choice([33, 36, 40])
+        row, text = plain_row(sub, sub.choice([1, 8, 15]), n)
+        words = [sccgen.CMD["RCL"], sccgen.CMD["ENM"]] + sccgen.row_words(row, False) + [sccgen.CMD["EOC"]]
+        lines += [sccgen.timecode(frame, False) + "\t" + " ".join(words), ""]; frame += len(words) + 90
+        lines += [sccgen.timecode(frame, False) + "\t" + sccgen.CMD["EDM"], ""]
+        doc = "\n".join(lines) + "\n"
+        case = {"scc": doc, "mode": "roll-up then pop-on, simulate_roll_up=True", "pop_on_row_length": len(text)}
+        chk.case(key=("simulated", doc), nontrivial=len(text) > 32); chk.count("simulate_roll_up_reads")
+        try:
+            cs = pycaption.SCCReader().read(doc, simulate_roll_up=True)
+            outcome = ("ok", [l for c in cs.get_captions(cs.get_languages()[0]) for l in c.get_text().split("\n")])
+        except CaptionLineLengthError as e:
+            outcome = ("lineLength", e.args[0])
+        except Exception as e:
+            outcome = ("err", repr(e)[:200])
+        if outcome[0] == "err":
+            chk.property_failure(dict(case, outcome=str(outcome)), "reading with simulate_roll_up=True raised an unexpected error")
+        elif len(text) > 32 and outcome[0] == "ok":
+            chk.property_failure(dict(case, returned_lines=outcome[1]), "with simulate_roll_up=True a row longer than 32 characters was returned silently")
+        elif len(text) > 32 and (text + " - Length %d" % len(text)) not in outcome[1]:
+            chk.property_failure(dict(case, message=outcome[1]), "the line-length error does not name the offending line")
+        elif len(text) <= 32 and outcome[0] == "lineLength":
+            chk.property_failure(dict(case, message=outcome[1]), "line-length error although no row is longer than 32 characters")
+
+
+_explore_main = explore
+
+
+def explore(chk):
+    _explore_main(chk)
+    explore_simulated(chk)
+
+
 def replay(path):
     r = json.load(open(path)); c = r.get("case", {})
     if "scc" in c:
